@@ -38,7 +38,8 @@ pub fn writer_to_json(w: &WriterKind) -> Value {
         WriterKind::SliceSlack(k) => json!({"kind": "slice_slack", "slack": k}),
         WriterKind::LimitVec => json!({"kind": "limit_vec"}),
         WriterKind::ChainSliceVec(s) => json!({"kind": "chain_slice_vec", "split": s}),
-        WriterKind::Sim { chunks, cap } => json!({"kind": "simbuf", "chunks": chunks, "cap": match cap { Cap::Exact => json!("exact"), Cap::Slack(k) => json!({"slack": k}), Cap::Ample => json!("ample") }}),
+        WriterKind::Chain3Vec => json!({"kind": "chain3_growable"}),
+        WriterKind::Sim { chunks, cap } => json!({"kind": "simbuf", "chunks": chunks, "cap": match cap { Cap::Exact => json!("exact"), Cap::Slack(k) => json!({"slack": k}), Cap::Ample => json!("ample"), Cap::Unbounded => json!("unbounded") }}),
     }
 }
 
@@ -50,10 +51,12 @@ pub fn writer_from_json(v: &Value) -> Option<WriterKind> {
         "slice_slack" => WriterKind::SliceSlack(v["slack"].as_u64()? as usize),
         "limit_vec" => WriterKind::LimitVec,
         "chain_slice_vec" => WriterKind::ChainSliceVec(v["split"].as_u64()? as usize),
+        "chain3_growable" => WriterKind::Chain3Vec,
         "simbuf" => WriterKind::Sim {
             chunks: v["chunks"].as_array()?.iter().filter_map(|c| c.as_u64().map(|x| x as usize)).collect(),
             cap: match &v["cap"] {
                 Value::String(s) if s == "exact" => Cap::Exact,
+                Value::String(s) if s == "unbounded" => Cap::Unbounded,
                 Value::String(_) => Cap::Ample,
                 o => Cap::Slack(o["slack"].as_u64()? as usize),
             },
@@ -369,9 +372,9 @@ pub struct Swarm {
 }
 
 pub fn draw_swarm(rng: &mut Rng) -> Swarm {
-    let mut writers: Vec<u8> = (0..9).filter(|_| rng.below(2) == 0).collect();
+    let mut writers: Vec<u8> = (0..11).filter(|_| rng.below(2) == 0).collect();
     if writers.is_empty() {
-        writers.push(rng.below(9) as u8);
+        writers.push(rng.below(11) as u8);
     }
     let all = [FaultKind::Truncate, FaultKind::Flip, FaultKind::Dup, FaultKind::Drop, FaultKind::Insert];
     let faults: Vec<FaultKind> = all.iter().filter(|_| rng.below(2) == 0).cloned().collect();
@@ -392,7 +395,9 @@ pub fn draw_writer(rng: &mut Rng, sw: &Swarm) -> WriterKind {
         5 => WriterKind::ChainSliceVec(rng.range(0, 12) as usize),
         6 => WriterKind::Sim { chunks: chunks(rng), cap: Cap::Exact },
         7 => WriterKind::Sim { chunks: chunks(rng), cap: Cap::Slack(rng.range(1, 5) as usize) },
-        _ => WriterKind::Sim { chunks: chunks(rng), cap: Cap::Ample },
+        8 => WriterKind::Sim { chunks: chunks(rng), cap: Cap::Ample },
+        9 => WriterKind::Chain3Vec,
+        _ => WriterKind::Sim { chunks: chunks(rng), cap: Cap::Unbounded },
     }
 }
 
